@@ -35,7 +35,8 @@ def frames(ver, req, c):
     cp = 20000 + c % 30000
     o = b"\x02\x04\x05\xb4"
     return [T.pkt(ver, cip, sip, cp, 80, 100, 0, 0x02, tcpopts=o, ipid=1), T.pkt(ver, sip, cip, 80, cp, 500, 101, 0x12, tcpopts=o, ipid=2),
-            T.pkt(ver, cip, sip, cp, 80, 101, 501, 0x18, req, ipid=3)]
+            T.pkt(ver, cip, sip, cp, 80, 101, 501, 0x18, req, ipid=3),
+            T.pkt(ver, sip, cip, 80, cp, 501, 101 + len(req), 0x18, b"HTTP/1.1 200 OK\r\nServer: Linux Windows iPad\r\nContent-Length: 0\r\n\r\n", ipid=4)]
 
 
 def run(tier, v):
@@ -52,9 +53,11 @@ def run(tier, v):
         db = db_text(e, i)
         for ver in (4, 6):
             for crate in ("http", "uni"):
+                if crate == "uni" and not q["db"]:
+                    continue        # the unified analyzer refuses "no database" unless its matcher is switched off: C20's ground
                 k = len(lines)
                 meta[k] = (i, ver, crate)
-                lines.append({"id": k, "crate": crate, "frames": [f.hex() for f in frames(ver, head, i + 1)], "db": db, "matcher": True})
+                lines.append({"id": k, "crate": crate, "frames": [f.hex() for f in frames(ver, head, i + 1)], "db": db, "matcher": q["db"]})
     req = os.path.join(wd, "x05.req")
     vlib.write_ndjson(req, lines)
     out = os.path.join(wd, "x05.out")
@@ -74,6 +77,9 @@ def run(tier, v):
         if len(got) != 1:
             v.violation(dict(ctx, observed="%d request results" % len(got)))
             continue
+        resp = [x["resp"] for x in o["results"] if x.get("resp")]
+        if len(resp) != 1 or resp[0]["diagnosis"] != "none":
+            v.violation(dict(ctx, specified="one response, diagnosis none", observed=[x["diagnosis"] for x in resp]))
         g = got[0]
         labelled = g.get("browser") is not None
         if labelled != e["req"]["matched"]:
